@@ -854,12 +854,103 @@ let c26 = function
      | _ -> "FAIL malformed result")
   | _ -> "FAIL malformed case"
 
+(* C14 / C17 *)
+let c14 = function
+  | [A kind; _; len; L ms; verdict; acts; evs; cms; pverdict; pacts] ->
+    let len' = n_of_int (int_of_sx len) in
+    let skips = [[n_of_int 30]] in
+    let ms' = Stdlib.List.map (fun m -> match ints_of_sx m with
+        | [t; s; e] -> { TokenBuffer.m_type = n_of_int t; m_start = n_of_int s; m_end = n_of_int e; m_mode = BinNums.N0 }
+        | _ -> failwith "match") ms in
+    if verdict = A "panic" || pverdict = A "panic" then "FAIL key=parser-panic the parser panicked"
+    else if not (TokenBuffer.matches_ok len' ms') then "SKIP scanner matches not well-formed"
+    else begin
+      let expected = Stdlib.List.map (fun t -> let ((a, b), c) = TokenBuffer.token_triple t in (int_of_n a, int_of_n b, int_of_n c)) (TokenBuffer.all_tokens skips len' ms') in
+      let leaves = Stdlib.List.filter_map (function
+          | L [A "t"; t; s; e] -> Some (int_of_sx t, int_of_sx s, int_of_sx e) | _ -> None) (list_of_sx evs) in
+      let has_gap = Stdlib.List.exists (fun (t, _, _) -> t > 31 || t = 65533 || (t > 4 && t <> 30 && false)) expected in
+      let nskip = Stdlib.List.length (Stdlib.List.filter (fun (t, _, _) -> t < 5 || t = 30 || t > 31) expected) in
+      let listed = Stdlib.List.exists (fun (t, _, _) -> t = 30) expected in
+      ignore has_gap;
+      if prop = "C14" then begin
+        if verdict <> A "ok" then "OK 0 not-accepted"
+        else if not (TokenBuffer.tokens_check len' (Stdlib.List.map (fun (t, s, e) -> ((n_of_int t, n_of_int s), n_of_int e)) leaves))
+        then "FAIL key=tree-leaves-not-contiguous the leaves of the parse tree do not cover the text contiguously"
+        else if leaves <> expected then
+          Printf.sprintf "FAIL key=tree-leaves-differ-from-tokens the leaves of the parse tree are not exactly the tokens of the input (%d leaves, %d tokens)" (Stdlib.List.length leaves) (Stdlib.List.length expected)
+        else Printf.sprintf "OK %d %s" (if nskip >= 1 then 1 else 0) kind
+      end else begin
+        (* C17 *)
+        if verdict <> pverdict then Printf.sprintf "FAIL key=skipped-tokens-change-verdict%s with skip material: %s, without: %s" (if listed then "-skip-listed" else "") (Sexp.to_string verdict) (Sexp.to_string pverdict)
+        else if verdict = A "ok" && acts <> pacts then Printf.sprintf "FAIL key=skipped-tokens-change-actions%s-%s the semantic actions differ from those of the text without skip material" (if listed then "-skip-listed" else "") kind
+        else begin
+          let want = Stdlib.List.filter_map (fun (t, s, _) -> if t = 3 || t = 4 then Some [t; s] else None) expected in
+          let got = Stdlib.List.map ints_of_sx (list_of_sx cms) in
+          if verdict = A "ok" && got <> want then "FAIL key=comments-not-once-in-order the comment callback did not receive every comment exactly once in input order"
+          else Printf.sprintf "OK %d %s%s" (if nskip >= 2 && verdict = A "ok" then 1 else 0) kind (if listed then " skip-listed" else "")
+        end
+      end
+    end
+  | _ -> "FAIL malformed case"
+
+(* C13 *)
+let c13 = function
+  | [_; L [A why]] -> "OK 0 " ^ why
+  | [_; L (A "scanner-build-failed" :: _)] -> "SKIP scnr2_generate could not build the scanner"
+  | [_; L (A "modes" :: ms); text; _k; res] ->
+    let unsupported = ref false in
+    let rx x = if x = L [A "unsupported"] then (unsupported := true; Regex.Empty) else regex_of_sx x in
+    let modes = Stdlib.List.map (function
+        | L [L entries; L trans] ->
+          let es = Stdlib.List.map (function
+              | L [ty; r; la] ->
+                let la' = (match la with A "none" -> None | L [p; lr] -> Some (int_of_sx p = 1, rx lr) | _ -> failwith "la") in
+                ((n_of_int (int_of_sx ty), rx r), la')
+              | _ -> failwith "entry") entries in
+          let tr = Stdlib.List.map (function
+              | L [ty; A "enter"; m] -> (n_of_int (int_of_sx ty), LongestMatch.Enter (nat_of_int (int_of_sx m)))
+              | L [ty; A "push"; m] -> (n_of_int (int_of_sx ty), LongestMatch.Push (nat_of_int (int_of_sx m)))
+              | L [ty; A "pop"] -> (n_of_int (int_of_sx ty), LongestMatch.Pop)
+              | _ -> failwith "transition") trans in
+          (es, tr)
+        | _ -> failwith "mode") ms in
+    if !unsupported then "SKIP pattern uses a regex feature outside the model"
+    else if not (LongestMatch.modes_ok modes) then "SKIP mode table refers to an unknown mode"
+    else begin
+      match res with
+      | L [A "error"; _] -> "FAIL key=stream-error the real token stream returned an error"
+      | L real ->
+        let s = ns_of_sx text in
+        (match LongestMatch.tokenize_all modes s with
+         | None -> "SKIP model out of fuel"
+         | Some toks ->
+           let want = Stdlib.List.map (fun ((ty, st), ln) -> (int_of_n ty, int_of_nat st, int_of_nat st + int_of_nat ln)) toks in
+           let got = Stdlib.List.filter_map (fun r -> match ints_of_sx r with [ty; a; b] when ty <> 65534 -> Some (ty, a, b) | _ -> None) real in
+           if got = want then begin
+             (* non-trivial: at some token start at least two entries match *)
+             let nt = Stdlib.List.length want >= 2 in
+             Printf.sprintf "OK %d modes-%d" (if nt then 1 else 0) (Stdlib.List.length modes)
+           end else begin
+             let rec firstdiff i a b = (match a, b with
+                 | x :: a', y :: b' when x = y -> firstdiff (i + 1) a' b'
+                 | x :: _, y :: _ -> Printf.sprintf "token %d: real (%d %d..%d) spec (%d %d..%d)" i (let (t,_,_) = x in t) (let (_,a,_) = x in a) (let (_,_,b) = x in b) (let (t,_,_) = y in t) (let (_,a,_) = y in a) (let (_,_,b) = y in b)
+                 | [], _ :: _ -> Printf.sprintf "real stream ends after %d tokens" i
+                 | _ :: _, [] -> Printf.sprintf "real stream has more than the %d tokens of the spec" i
+                 | [], [] -> "") in
+             Printf.sprintf "FAIL key=tokens-differ-from-longest-match %s" (firstdiff 0 got want)
+           end)
+      | _ -> "FAIL malformed result"
+    end
+  | _ -> "FAIL malformed case"
+
 let dispatch (sx : Sexp.t) : string =
   match sx with
   | L (A "lev" :: args) -> c31 args
   | L (A "eval" :: args) -> c08 args
   | L (A "aug" :: args) -> c12 args
   | L (A "wf" :: args) -> c11 args
+  | L (A "scan" :: args) -> c13 args
+  | L (A "lossless" :: args) -> c14 args
   | L (A "pipe" :: args) -> c26 args
   | L (A "tix" :: args) -> c18 args
   | L (A "diag" :: args) -> c29 args
